@@ -95,6 +95,11 @@ func runOne(c *verdict.Ctx, stream string, idx int, control bool, cov *covAgg) (
 	})
 	net.Observe(&lc)
 	c.Eval()
+	if h := net.HaltedNodes(); len(h) > 0 {
+		// halting is a termination (C03) matter; agreement is still audited on what was decided
+		c.Count("correct_node_consensus_panics", int64(len(h)))
+		c.Inconclusive("a correct node halted on a consensus panic (reported by C03)")
+	}
 	dec := net.Stats["decisions"]
 	byz := net.Stats["byz_votes"] + net.Stats["byz_proposals"] + net.Stats["partitions"]
 	if !control && dec > 0 && byz > 0 {
